@@ -90,6 +90,31 @@ pub fn search(r: &mut Report, tier: &str, _seed: u64) {
             } }
         }
     }
+    // ---- edge values: zero steps, totals near u64::MAX on several actors (the SUM exceeds u64; per-actor totals do not) ----
+    {
+        let big = u64::MAX - 10;
+        for steps in [0u64, 1, 7, big] {
+            let mut g = GCounter::new();
+            let op = g.inc(0u8); g.apply(op);
+            let op = g.inc_many(0u8, steps);
+            r.case("gcounter.inc_many_dot", op.counter as u128 == 1u128 + steps as u128, &|| format!("inc; inc_many(0, {})", steps), &|| format!("dot {:?}", op));
+            g.apply(op);
+            r.case("gcounter.read_edge", g.read() == BigUint::from(1u8) + BigUint::from(steps), &|| format!("inc; inc_many(0, {})", steps), &|| format!("read {}", g.read()));
+            let mut h = GCounter::new();
+            let op = h.inc_many(1u8, big); h.apply(op);
+            g.merge(h);
+            r.case("gcounter.read_beyond_u64", g.read() == BigUint::from(1u8) + BigUint::from(steps) + BigUint::from(big), &|| format!("inc; inc_many(0, {}); merge inc_many(1, MAX-10)", steps), &|| format!("read {}", g.read()));
+            let mut p = PNCounter::new();
+            let op = p.inc_many(0u8, steps); p.apply(op);
+            let op = p.dec_many(1u8, steps); p.apply(op);
+            let op = p.inc_many(2u8, big); p.apply(op);
+            let op = p.inc(0u8); p.apply(op);
+            let mut q = PNCounter::new();
+            let op = q.inc_many(3u8, big); q.apply(op);
+            p.merge(q);
+            r.case("pncounter.read_edge", p.read() == BigInt::from(1) + BigInt::from(big) + BigInt::from(big), &|| format!("inc_many(0,{0}); dec_many(1,{0}); inc_many(2,MAX-10); inc(0); merge inc_many(3,MAX-10)", steps), &|| format!("read {}", p.read()));
+        }
+    }
     // ---- LWWReg -----------------------------------------------------------------------------
     let writes: Vec<(u8, u8)> = vec![(10, 1), (20, 2), (10, 3), (20, 3), (10, 2), (20, 1)]; // (val, marker)
     for d in seqs(writes.len(), 3) {
